@@ -1573,3 +1573,20 @@ def m_res_unwrap_or_default(ctx, cty, a):
         return r.fields[0]
     ctx.drop_value(r.fields[0])
     return default_for(ctx, generic_arg(cty, 0, -2))
+
+
+@model("core::slice::<impl [_]>::split_at")
+def m_slice_split_at(ctx, cty, a):
+    lst, s, e = as_list(a[0])
+    n = ctx.concretize(a[1], "split_at")
+    if n > e - s:
+        raise PanicPath("mid > len in split_at", "bounds")
+    return tup(SliceRef(lst, s, s + n), SliceRef(lst, s + n, e))
+
+
+@model("core::slice::<impl [_]>::split_first")
+def m_slice_split_first(ctx, cty, a):
+    lst, s, e = as_list(a[0])
+    if e <= s:
+        return opt_none()
+    return opt_some(tup(Ref(lst, s), SliceRef(lst, s + 1, e)))
